@@ -1,10 +1,493 @@
 (* Proofs about the GeoJSON model (C14). *)
 From Coq Require Import String.
-From GV Require Import Prelude RingM GeoJsonM.
+From GV Require Import Prelude RingM RingP GeoJsonM.
 Open Scope string_scope.
 Open Scope Z_scope.
 
-(* importing never changes the caller's document (model after repair D15) *)
+(* ---------- induction on json (nested through lists) ---------- *)
+
+Lemma json_ind' (P : json -> Prop)
+  (Hnull : P JNull) (Hbool : forall b, P (JBool b)) (Hint : forall n, P (JInt n))
+  (Hfloat : forall z, P (JFloat z)) (Hstr : forall s, P (JStr s)) (Htime : forall t, P (JTime t))
+  (Hdt : forall t, P (JDt t))
+  (Harr : forall l, Forall P l -> P (JArr l))
+  (Hobj : forall l, Forall (fun kv => P (snd kv)) l -> P (JObj l)) : forall j, P j.
+Proof.
+  fix IH 1. intros [ |b|n|z|s|t|t|l|l];
+    [apply Hnull|apply Hbool|apply Hint|apply Hfloat|apply Hstr|apply Htime|apply Hdt| | ].
+  - apply Harr. revert l. fix aux 1. intros [|a l]; constructor; [apply IH|apply aux].
+  - apply Hobj. revert l. fix aux 1. intros [|[k a] l]; constructor; [apply IH|apply aux].
+Qed.
+
+(* no datetime object anywhere: what json.dumps can serialise *)
+Fixpoint json_pure (j : json) : bool :=
+  match j with
+  | JDt _ => false
+  | JArr l => forallb json_pure l
+  | JObj l => forallb (fun kv => json_pure (snd kv)) l
+  | _ => true
+  end.
+
+Definition dict_pure (d : dict) : bool := forallb (fun kv => json_pure (snd kv)) d.
+
+Lemma sanitize_pure : forall j, json_pure (sanitize j) = true.
+Proof.
+  induction j using json_ind'; cbn; try reflexivity.
+  - rewrite forallb_forall. intros x Hx. apply in_map_iff in Hx as (y & <- & Hy).
+    rewrite Forall_forall in H. apply H. exact Hy.
+  - rewrite forallb_forall. intros x Hx. apply in_map_iff in Hx as (y & <- & Hy).
+    rewrite Forall_forall in H. cbn. apply H. exact Hy.
+Qed.
+
+Lemma sanitize_id : forall j, json_pure j = true -> sanitize j = j.
+Proof.
+  induction j using json_ind'; cbn; intros Hp; try reflexivity; try discriminate.
+  - f_equal. rewrite forallb_forall in Hp. rewrite Forall_forall in H.
+    rewrite <- (map_id l) at 2. apply map_ext_in. intros a Ha. apply H; [exact Ha|apply Hp; exact Ha].
+  - f_equal. rewrite forallb_forall in Hp. rewrite Forall_forall in H.
+    rewrite <- (map_id l) at 2. apply map_ext_in. intros [k a] Ha. cbn. f_equal.
+    apply (H (k, a) Ha). apply (Hp (k, a) Ha).
+Qed.
+
+Lemma sanitize_dict_pure : forall d, dict_pure (sanitize_dict d) = true.
+Proof.
+  intros d. unfold dict_pure, sanitize_dict. rewrite forallb_forall. intros x Hx.
+  apply in_map_iff in Hx as (y & <- & _). cbn. apply sanitize_pure.
+Qed.
+
+Lemma sanitize_dict_id : forall d, dict_pure d = true -> sanitize_dict d = d.
+Proof.
+  intros d Hp. unfold dict_pure in Hp. rewrite forallb_forall in Hp. unfold sanitize_dict.
+  rewrite <- (map_id d) at 2. apply map_ext_in. intros [k a] Ha. cbn. f_equal.
+  apply sanitize_id. apply (Hp (k, a) Ha).
+Qed.
+
+(* ---------- dictionaries ---------- *)
+
+Lemma jget_dset : forall k k' v d,
+  jget k (dset k' v d) = if String.eqb k k' then Some v else jget k d.
+Proof.
+  intros k k' v. induction d as [|[h x] d IH]; cbn.
+  - destruct (String.eqb k k'); reflexivity.
+  - destruct (String.eqb k' h) eqn:E.
+    + apply String.eqb_eq in E. subst h. cbn. destruct (String.eqb k k'); reflexivity.
+    + cbn. destruct (String.eqb k h) eqn:F.
+      * apply String.eqb_eq in F. subst h. rewrite String.eqb_sym in E. rewrite E. reflexivity.
+      * exact IH.
+Qed.
+
+Lemma jget_dmerge_fresh : forall k u d, jget k u = None -> jget k (dmerge d u) = jget k d.
+Proof.
+  intros k. unfold dmerge. induction u as [|[k1 v1] u IH]; intros d H; cbn in *; [reflexivity|].
+  destruct (String.eqb k k1) eqn:E; [discriminate|].
+  rewrite IH by exact H. rewrite jget_dset, E. reflexivity.
+Qed.
+
+Lemma jget_notin : forall k d, ~ In k (map fst d) -> jget k d = None.
+Proof.
+  intros k. induction d as [|[h x] d IH]; cbn; intros H; [reflexivity|].
+  destruct (String.eqb k h) eqn:E.
+  - apply String.eqb_eq in E. subst. exfalso. apply H. left. reflexivity.
+  - apply IH. intros Hin. apply H. right. exact Hin.
+Qed.
+
+(* {**d, **u}: u's binding wins, otherwise d's *)
+Lemma jget_dmerge : forall k u d, NoDup (map fst u) ->
+  jget k (dmerge d u) = match jget k u with Some v => Some v | None => jget k d end.
+Proof.
+  intros k. unfold dmerge. induction u as [|[k1 v1] u IH]; intros d N; cbn in *; [reflexivity|].
+  inversion N as [|? ? Hnot N']; subst.
+  rewrite IH by exact N'. rewrite jget_dset.
+  destruct (String.eqb k k1) eqn:E.
+  - apply String.eqb_eq in E. subst k1. rewrite (jget_notin _ _ Hnot). reflexivity.
+  - reflexivity.
+Qed.
+
+Lemma dpop_dset_other : forall k k' v d, String.eqb k k' = false ->
+  dpop k (dset k' v d) = dset k' v (dpop k d).
+Proof.
+  intros k k' v d N. induction d as [|[h x] d IH]; cbn.
+  - rewrite N. reflexivity.
+  - destruct (String.eqb k' h) eqn:E; destruct (String.eqb k h) eqn:F; cbn; rewrite ?E, ?F.
+    + apply String.eqb_eq in E, F. subst. rewrite String.eqb_refl in N. discriminate.
+    + reflexivity.
+    + reflexivity.
+    + rewrite IH. reflexivity.
+Qed.
+
+Lemma dpop_dmerge_fresh : forall k u d, jget k u = None ->
+  dpop k (dmerge d u) = dmerge (dpop k d) u.
+Proof.
+  intros k. unfold dmerge. induction u as [|[k1 v1] u IH]; intros d H; cbn in *; [reflexivity|].
+  destruct (String.eqb k k1) eqn:E; [discriminate|].
+  rewrite IH by exact H. rewrite dpop_dset_other by exact E. reflexivity.
+Qed.
+
+Lemma dpop_dset_fresh : forall k v d, jget k d = None -> dpop k (dset k v d) = d.
+Proof.
+  intros k v. induction d as [|[h x] d IH]; cbn; intros H.
+  - rewrite String.eqb_refl. reflexivity.
+  - destruct (String.eqb k h) eqn:E; [discriminate|]. cbn. rewrite E. f_equal. apply IH. exact H.
+Qed.
+
+Lemma dpop_fresh : forall k d, jget k d = None -> dpop k d = d.
+Proof.
+  intros k. induction d as [|[h x] d IH]; cbn; intros H; [reflexivity|].
+  destruct (String.eqb k h) eqn:E; [discriminate|]. f_equal. apply IH. exact H.
+Qed.
+
+Lemma jget_sanitize_dict : forall k d, jget k (sanitize_dict d) = option_map sanitize (jget k d).
+Proof.
+  intros k. induction d as [|[h x] d IH]; cbn; [reflexivity|].
+  destruct (String.eqb k h); [reflexivity|exact IH].
+Qed.
+
+Lemma sanitize_dict_dset : forall k v d,
+  sanitize_dict (dset k v d) = dset k (sanitize v) (sanitize_dict d).
+Proof.
+  intros k v. induction d as [|[h x] d IH]; cbn; [reflexivity|].
+  destruct (String.eqb k h); cbn; [reflexivity|]. f_equal. exact IH.
+Qed.
+
+(* ---------- the properties member (props_merge) ---------- *)
+
+Definition exported_props (s : shape) (ups : option dict) : dict :=
+  dmerge (sanitize_dict (properties s)) (match ups with Some u => u | None => [] end).
+
+(* caller-supplied properties override; everything else is the shape's own (sanitised)
+   properties, the dt fields included *)
+Lemma props_merge : forall s u k, NoDup (map fst u) ->
+  jget k (exported_props s (Some u)) =
+  match jget k u with
+  | Some v => Some v
+  | None => option_map sanitize (jget k (properties s))
+  end.
+Proof.
+  intros s u k N. unfold exported_props. rewrite jget_dmerge by exact N.
+  rewrite jget_sanitize_dict. reflexivity.
+Qed.
+
+Lemma props_dt_fields : forall g a b p,
+  jget "datetime_start" (properties (mkshape g (Some (a, b)) p)) = Some (JDt a) /\
+  jget "datetime_end" (properties (mkshape g (Some (a, b)) p)) = Some (JDt b).
+Proof.
+  intros. unfold properties; cbn [sdt sprops]. rewrite !jget_dset. cbn. split; reflexivity.
+Qed.
+
+Lemma props_user_fields : forall g dt p k,
+  String.eqb k "datetime_start" = false -> String.eqb k "datetime_end" = false ->
+  jget k (properties (mkshape g dt p)) = jget k p.
+Proof.
+  intros g [[a b]|] p k H1 H2; unfold properties; cbn [sdt sprops]; [|reflexivity].
+  rewrite !jget_dset, H1, H2. reflexivity.
+Qed.
+
+(* ---------- reading back the time fields ---------- *)
+
+Definition no_reserved (d : dict) : Prop :=
+  jget "datetime_start" d = None /\ jget "datetime_end" d = None.
+
+Definition dt_wf (dt : option (Z * Z)) : Prop :=
+  match dt with Some (a, b) => a <= b | None => True end.
+
+Lemma get_dt_exported : forall g dt p u,
+  dt_wf dt -> dict_pure p = true -> no_reserved p -> no_reserved u ->
+  get_dt (exported_props (mkshape g dt p) (Some u)) = Ok (dt, dmerge p u).
+Proof.
+  intros g dt p u Hw Hp [Hs He] [Us Ue]. unfold exported_props, get_dt.
+  rewrite !jget_dmerge_fresh by assumption.
+  destruct dt as [[a b]|]; unfold properties; cbn [sdt sprops].
+  - rewrite !sanitize_dict_dset. cbn [sanitize]. rewrite (sanitize_dict_id p Hp).
+    rewrite !jget_dset. cbn [String.eqb Ascii.eqb Bool.eqb conv falsy].
+    change (String.eqb "datetime_start" "datetime_end") with false. cbn iota.
+    rewrite dpop_dmerge_fresh by exact Us.
+    rewrite (dpop_dset_other "datetime_start" "datetime_end") by reflexivity.
+    rewrite dpop_dset_fresh by exact Hs.
+    rewrite jget_dmerge_fresh by exact Ue.
+    rewrite jget_dset. rewrite String.eqb_refl. cbn [conv falsy].
+    rewrite dpop_dmerge_fresh by exact Ue.
+    rewrite dpop_dset_fresh by exact He.
+    cbn in Hw. destruct (b <? a) eqn:E; [lia|reflexivity].
+  - rewrite (sanitize_dict_id p Hp). rewrite Hs. cbn [conv].
+    rewrite dpop_dmerge_fresh by exact Us. rewrite (dpop_fresh _ _ Hs).
+    rewrite jget_dmerge_fresh by exact Ue. rewrite He. cbn [conv].
+    rewrite dpop_dmerge_fresh by exact Ue. rewrite (dpop_fresh _ _ He). reflexivity.
+Qed.
+
+(* ---------- positions ---------- *)
+
+Definition z_ok (c : coord) : Prop := cz c <> Some 0.
+
+Lemma parse_pos_position : forall half c,
+  parse_pos half (position c) = Ok (mkc (lon c) (lat c) (truthy_z (cz c))).
+Proof.
+  intros half [x y [z|]]; unfold position, truthy_z; cbn; [|reflexivity].
+  destruct (z =? 0); reflexivity.
+Qed.
+
+Lemma parse_pos_ok : forall half c, z_ok c -> parse_pos half (position c) = Ok c.
+Proof.
+  intros half [x y z] H. rewrite parse_pos_position. cbn. f_equal. f_equal.
+  unfold z_ok in H. cbn in H. destruct z as [z|]; cbn; [|reflexivity].
+  destruct (z =? 0) eqn:E; [|reflexivity]. apply Z.eqb_eq in E. subst. contradiction.
+Qed.
+
+Lemma mapM_map_ok {A B} (f : B -> res A) (g : A -> B) : forall l,
+  (forall a, In a l -> f (g a) = Ok a) -> mapM f (map g l) = Ok l.
+Proof.
+  induction l as [|a l IH]; intros H; cbn; [reflexivity|].
+  rewrite (H a (or_introl eq_refl)). rewrite IH; [reflexivity|].
+  intros b Hb. apply H. right. exact Hb.
+Qed.
+
+Definition ring_zok (r : ring) : Prop := Forall z_ok r.
+
+Lemma parse_ring_jring : forall half r, ring_zok r -> parse_ring half (jring r) = Ok r.
+Proof.
+  intros half r H. unfold parse_ring, jring. apply mapM_map_ok.
+  intros a Ha. apply parse_pos_ok. unfold ring_zok in H. rewrite Forall_forall in H. apply H. exact Ha.
+Qed.
+
+Lemma parse_rings_jrings : forall half rs, Forall ring_zok rs ->
+  parse_rings half (JArr (map jring rs)) = Ok rs.
+Proof.
+  intros half rs H. unfold parse_rings. apply mapM_map_ok.
+  intros a Ha. apply parse_ring_jring. rewrite Forall_forall in H. apply H. exact Ha.
+Qed.
+
+(* positions always decode to the same longitude / latitude (also when z = 0 is dropped) *)
+Lemma position_lonlat : forall half c, exists c',
+  parse_pos half (position c) = Ok c' /\ lon c' = lon c /\ lat c' = lat c.
+Proof. intros half c. eexists. rewrite parse_pos_position. repeat split. Qed.
+
+Lemma position_shape : forall c,
+  position c = JArr [JFloat (lon c); JFloat (lat c)] \/
+  exists z, cz c = Some z /\ z <> 0 /\ position c = JArr [JFloat (lon c); JFloat (lat c); JFloat z].
+Proof.
+  intros [x y [z|]]; unfold position, truthy_z; cbn; [|left; reflexivity].
+  destruct (z =? 0) eqn:E; [left; reflexivity|]. right. exists z. repeat split. lia.
+Qed.
+
+(* ---------- well-formed (constructed) geometries ---------- *)
+
+(* what GeoPolygon.__init__ establishes for an outline (RingP.norm_ring_spec) *)
+Definition ring_wf (half : Z) (r : ring) : Prop :=
+  (2 <= length r)%nat /\ closedb r = true /\ is_ccw half r = true.
+
+(* a hole that GeoPolygon.from_geojson can turn back: strictly oriented *)
+Definition hole_wf (half : Z) (h : ring) : Prop := ring_wf half h /\ is_ccw half (rev h) = false.
+
+Definition polygon_wf (half : Z) (strict : bool) (p : polygon) : Prop :=
+  ring_wf half (outline p) /\ ring_zok (outline p) /\
+  Forall (fun h => (if strict then hole_wf half h else ring_wf half h) /\ ring_zok h) (pholes p).
+
+Definition kind_of (g : geom) : option skind :=
+  match g with
+  | GPoint _ => Some KPoint | GLine _ => Some KLine | GPoly _ => Some KPoly
+  | GMPoint _ => Some KMPoint | GMLine _ => Some KMLine | GMPoly _ => Some KMPoly
+  | _ => None
+  end.
+
+Definition geom_wf (half : Z) (g : geom) : Prop :=
+  match g with
+  | GPoint c => z_ok c
+  | GLine vs => ring_zok vs
+  | GMPoint cs => ring_zok cs
+  | GMLine ls => Forall ring_zok ls
+  | GPoly p => polygon_wf half true p
+  | GMPoly ps => Forall (polygon_wf half false) ps
+  | _ => False
+  end.
+
+Lemma ring_wf_nonempty : forall half r, ring_wf half r -> r <> [].
+Proof. intros half [|a t] (L & _); cbn in L; [lia|discriminate]. Qed.
+
+Lemma ctor_ring_wf : forall half r, ring_wf half r -> ctor_ring half r = Ok r.
+Proof.
+  intros half r H. pose proof (ring_wf_nonempty _ _ H) as N. destruct H as (_ & C & O).
+  unfold ctor_ring. destruct r; [contradiction|]. rewrite norm_ring_fix by assumption. reflexivity.
+Qed.
+
+Lemma ctor_ring_nonempty : forall half r, r <> [] -> ctor_ring half r = Ok (norm_ring half false r).
+Proof. intros half [|a t] H; [contradiction|reflexivity]. Qed.
+
+Lemma ctor_ring_rev_hole : forall half h, hole_wf half h -> ctor_ring half (rev h) = Ok h.
+Proof.
+  intros half h [H R]. pose proof (ring_wf_nonempty _ _ H) as N. destruct H as (_ & C & O).
+  rewrite ctor_ring_nonempty.
+  - rewrite norm_ring_rev by assumption. reflexivity.
+  - intros E. apply (f_equal (@rev coord)) in E. rewrite rev_involutive in E. cbn in E. contradiction.
+Qed.
+
+Lemma ctor_ring_revrev : forall half h, ring_wf half h -> ctor_ring half (rev (rev h)) = Ok h.
+Proof. intros. rewrite rev_involutive. apply ctor_ring_wf. assumption. Qed.
+
+Lemma mapM_ok_id {A} (f : A -> res A) : forall l, (forall a, In a l -> f a = Ok a) -> mapM f l = Ok l.
+Proof. intros l H. rewrite <- (map_id l) at 1. apply mapM_map_ok. exact H. Qed.
+
+Lemma mapM_in_map {A B} (f : B -> res A) (g : A -> B) : forall l,
+  (forall a, In a l -> f (g a) = Ok a) -> mapM f (map g l) = Ok l.
+Proof. exact (mapM_map_ok f g). Qed.
+
+Lemma polygon_zok_rings : forall half st p, polygon_wf half st p -> Forall ring_zok (linear_rings p).
+Proof.
+  intros half st p (_ & Z & H). unfold linear_rings, rings_of. constructor; [exact Z|].
+  rewrite Forall_forall in *. intros r Hr. apply in_map_iff in Hr as (h & <- & Hh).
+  destruct (H h Hh) as [_ Zh]. unfold ring_zok in *. rewrite Forall_forall in *.
+  intros c Hc. apply Zh. apply in_rev. exact Hc.
+Qed.
+
+Lemma mpoly_member_ok : forall half p, polygon_wf half false p ->
+  mpoly_member half (JArr (map jring (linear_rings p))) = Ok p.
+Proof.
+  intros half p W. unfold mpoly_member.
+  rewrite parse_rings_jrings by (eapply polygon_zok_rings; exact W).
+  destruct W as (Wo & _ & Wh). unfold linear_rings, rings_of.
+  rewrite (mapM_map_ok (fun h => ctor_ring half (rev h)) (@rev coord)).
+  - rewrite ctor_ring_wf by exact Wo. destruct p; reflexivity.
+  - intros h Hh. rewrite Forall_forall in Wh. destruct (Wh h Hh) as [R _].
+    apply ctor_ring_revrev. exact R.
+Qed.
+
+(* ---------- the round trip ---------- *)
+
+Lemma geom_type_kind : forall g kd, kind_of g = Some kd -> geom_type g = kind_name kd.
+Proof. intros [] kd H; cbn in H; inversion H; reflexivity. Qed.
+
+(* from_geojson on a Feature whose three standard members are known *)
+Lemma from_feature : forall half kd doc t C P,
+  has_key "coordinates" doc = false ->
+  jget "geometry" doc = Some (JObj [("type", JStr t); ("coordinates", C)]) ->
+  jget "properties" doc = Some (JObj P) ->
+  String.eqb t (kind_name kd) = true ->
+  from_geojson half kd (JObj doc) =
+  match pre_geom half kd [("type", JStr t); ("coordinates", C)] with
+  | Err e => Err e
+  | Ok gm => match get_dt P with
+             | Err e => Err e
+             | Ok (dt, p') => match post_geom half kd gm with
+                              | Err e => Err e
+                              | Ok gm' => Ok (mkshape gm' dt p', JObj doc)
+                              end
+             end
+  end.
+Proof.
+  intros half kd doc t C P Hc Hg Hp Ht. unfold from_geojson, from_geojson_gen, geom_member.
+  rewrite Hc, Hg. cbn [jget String.eqb Ascii.eqb Bool.eqb]. rewrite Ht. cbn [negb].
+  rewrite Hp. reflexivity.
+Qed.
+
+Lemma pre_post_geom : forall half orc k g kd, kind_of g = Some kd -> geom_wf half g ->
+  exists C, geometry orc k g = JObj [("type", JStr (geom_type g)); ("coordinates", C)] /\
+  exists gm, pre_geom half kd [("type", JStr (geom_type g)); ("coordinates", C)] = Ok gm /\
+             post_geom half kd gm = Ok g.
+Proof.
+  intros half orc k g kd K W. destruct g; cbn in K; inversion K; subst kd; clear K;
+    eexists; (split; [reflexivity|]); cbn in W.
+  - (* point *) eexists. unfold pre_geom. cbn [jget String.eqb Ascii.eqb Bool.eqb].
+    rewrite parse_pos_ok by exact W. split; reflexivity.
+  - eexists. unfold pre_geom, coords_or_empty. cbn [jget String.eqb Ascii.eqb Bool.eqb].
+    rewrite parse_ring_jring by exact W. split; reflexivity.
+  - (* polygon *)
+    pose proof (polygon_zok_rings _ _ _ W) as Zr. destruct W as (Wo & Zo & Wh).
+    eexists. unfold pre_geom, coords_or_empty. cbn [jget String.eqb Ascii.eqb Bool.eqb geom_rings].
+    rewrite parse_rings_jrings by exact Zr.
+    unfold linear_rings, rings_of. cbn [tl hd].
+    rewrite (mapM_map_ok (ctor_ring half) (@rev coord)).
+    + split; [reflexivity|]. unfold post_geom. cbn [outline pholes].
+      rewrite ctor_ring_wf by exact Wo. destruct p; reflexivity.
+    + intros h Hh. rewrite Forall_forall in Wh. destruct (Wh h Hh) as [R _].
+      apply ctor_ring_rev_hole. exact R.
+  - eexists. unfold pre_geom, coords_or_empty. cbn [jget String.eqb Ascii.eqb Bool.eqb].
+    rewrite parse_ring_jring by exact W. split; reflexivity.
+  - eexists. unfold pre_geom, coords_or_empty. cbn [jget String.eqb Ascii.eqb Bool.eqb].
+    rewrite parse_rings_jrings by exact W. split; reflexivity.
+  - eexists. unfold pre_geom, coords_or_empty. cbn [jget String.eqb Ascii.eqb Bool.eqb].
+    rewrite (mapM_map_ok (mpoly_member half) (fun p => JArr (map jring (linear_rings p)))).
+    + split; reflexivity.
+    + intros p Hp. apply mpoly_member_ok. rewrite Forall_forall in W. apply W. exact Hp.
+Qed.
+
+Definition kw_ok (kw : dict) : Prop :=
+  jget "coordinates" kw = None /\ jget "geometry" kw = None /\
+  jget "properties" kw = None /\ jget "type" kw = None.
+
+Definition ups_dict (ups : option dict) : dict := match ups with Some u => u | None => [] end.
+
+Lemma exported_props_ups : forall s ups, exported_props s ups = exported_props s (Some (ups_dict ups)).
+Proof. intros s [u|]; reflexivity. Qed.
+
+(* export then import: the same geometry, dt and properties (merged with the override), and the
+   document is returned untouched *)
+Lemma geojson_roundtrip : forall half orc s ups k kw kd,
+  kind_of (sgeom s) = Some kd -> geom_wf half (sgeom s) -> dt_wf (sdt s) ->
+  dict_pure (sprops s) = true -> no_reserved (sprops s) -> no_reserved (ups_dict ups) -> kw_ok kw ->
+  from_geojson half kd (to_geojson orc s ups k kw) =
+  Ok (mkshape (sgeom s) (sdt s) (dmerge (sprops s) (ups_dict ups)), to_geojson orc s ups k kw).
+Proof.
+  intros half orc [g dt p] ups k kw kd K W D Pp Rp Ru (K1 & K2 & K3 & K4). cbn [sgeom sdt sprops] in *.
+  destruct (pre_post_geom half orc k g kd K W) as (C & EG & gm & Epre & Epost).
+  unfold to_geojson. cbn [sgeom sdt sprops].
+  rewrite (from_feature half kd _ (geom_type g) C (exported_props (mkshape g dt p) ups)).
+  - rewrite Epre. rewrite exported_props_ups.
+    rewrite get_dt_exported by assumption. rewrite Epost. reflexivity.
+  - unfold has_key. rewrite jget_dmerge_fresh by exact K1. reflexivity.
+  - rewrite jget_dmerge_fresh by exact K2. cbn [jget String.eqb Ascii.eqb Bool.eqb]. f_equal. exact EG.
+  - rewrite jget_dmerge_fresh by exact K3. cbn [jget String.eqb Ascii.eqb Bool.eqb]. reflexivity.
+  - rewrite (geom_type_kind _ _ K). apply String.eqb_refl.
+Qed.
+
+(* ---------- `==` is reflexive on well-formed shapes, hence the imported shape == the original ---------- *)
+
+Lemma dt_eqb_refl : forall d, dt_eqb d d = true.
+Proof. intros [[a b]|]; cbn; [rewrite !Z.eqb_refl|]; reflexivity. Qed.
+
+Lemma geom_eqb_refl : forall half g kd, kind_of g = Some kd -> geom_wf half g -> geom_eqb g g = true.
+Proof.
+  intros half g kd K W. destruct g; cbn in K; inversion K; cbn in W |- *.
+  - apply coord_eqb_refl.
+  - apply ring_eqb_refl.
+  - destruct W as ((L & _) & _). apply polygon_eqb_refl. exact L.
+  - apply seteq_b_refl. intros a _. apply coord_eqb_refl.
+  - apply seteq_b_refl. intros a _. apply ring_eqb_refl.
+  - apply seteq_b_refl. intros p Hp. rewrite Forall_forall in W. destruct (W p Hp) as ((L & _) & _).
+    apply polygon_eqb_refl. exact L.
+Qed.
+
+Lemma geojson_roundtrip_eq : forall half orc s ups k kw kd,
+  kind_of (sgeom s) = Some kd -> geom_wf half (sgeom s) -> dt_wf (sdt s) ->
+  dict_pure (sprops s) = true -> no_reserved (sprops s) -> no_reserved (ups_dict ups) -> kw_ok kw ->
+  exists s', from_geojson half kd (to_geojson orc s ups k kw) = Ok (s', to_geojson orc s ups k kw) /\
+             shape_eqb s' s = true /\ shape_eqb s s' = true /\ sdt s' = sdt s /\
+             sprops s' = dmerge (sprops s) (ups_dict ups).
+Proof.
+  intros half orc s ups k kw kd K W D Pp Rp Ru Kw.
+  eexists. split; [apply geojson_roundtrip; eassumption|].
+  unfold shape_eqb. cbn [sgeom sdt sprops].
+  rewrite (geom_eqb_refl half _ kd K W), dt_eqb_refl. repeat split.
+Qed.
+
+(* the type-dispatching parser takes an exported Feature to the right from_geojson *)
+Lemma parse_dispatch : forall half orc s ups k kw kd,
+  kind_of (sgeom s) = Some kd -> kw_ok kw ->
+  parse_geojson half (to_geojson orc s ups k kw) =
+  match from_geojson half kd (to_geojson orc s ups k kw) with
+  | Ok (s', d) => Ok (PShape s', d)
+  | Err e => Err e
+  end.
+Proof.
+  intros half orc [g dt p] ups k kw kd K (K1 & K2 & K3 & K4). cbn [sgeom] in K.
+  unfold parse_geojson, to_geojson, dispatch. cbn [sgeom sdt sprops].
+  rewrite (jget_dmerge_fresh "type") by exact K4. rewrite (jget_dmerge_fresh "geometry") by exact K2.
+  cbn [jget String.eqb Ascii.eqb Bool.eqb].
+  change (parser_of "Feature") with (@None parser). cbn iota.
+  unfold geometry. cbn [jget String.eqb Ascii.eqb Bool.eqb].
+  rewrite (geom_type_kind _ _ K).
+  destruct kd; reflexivity.
+Qed.
+
+(* ---------- purity of the import; importing twice ---------- *)
+
 Lemma import_pure : forall half k doc s doc', from_geojson half k doc = Ok (s, doc') -> doc' = doc.
 Proof.
   intros half k doc s doc'. unfold from_geojson, from_geojson_gen.
@@ -17,4 +500,147 @@ Proof.
   destruct (get_dt pp) as [[? ?]|]; try discriminate.
   destruct (post_geom _ _ _); try discriminate.
   intros H. inversion H. reflexivity.
+Qed.
+
+Lemma import_twice_equal : forall half k doc s doc',
+  from_geojson half k doc = Ok (s, doc') -> from_geojson half k doc' = Ok (s, doc').
+Proof. intros half k doc s doc' H. pose proof (import_pure _ _ _ _ _ H) as E. subst. exact H. Qed.
+
+Lemma mapM_parse_feature_pure : forall half fs l,
+  mapM (parse_feature half) fs = Ok l -> map snd l = fs.
+Proof.
+  induction fs as [|f fs IH]; intros l H; cbn in H.
+  - inversion H. reflexivity.
+  - destruct (parse_feature half f) as [[s d]|] eqn:E; try discriminate.
+    destruct (mapM (parse_feature half) fs) as [bs|] eqn:F; try discriminate.
+    inversion H; subst. cbn. f_equal; [|apply IH; reflexivity].
+    unfold parse_feature in E. destruct f; try discriminate.
+    destruct (dispatch l) as [[[kk|]|]|]; try discriminate.
+    apply import_pure in E. exact E.
+Qed.
+
+Lemma parse_pure : forall half doc p doc', parse_geojson half doc = Ok (p, doc') -> doc' = doc.
+Proof.
+  intros half doc p doc'. unfold parse_geojson. destruct doc; try discriminate.
+  destruct (dispatch l) as [[[kk|]|]|]; try discriminate.
+  - destruct (from_geojson half kk (JObj l)) as [[s d]|] eqn:E; try discriminate.
+    intros H. inversion H; subst. eapply import_pure. exact E.
+  - unfold fc_from_geojson.
+    destruct (jget "type" l) as [[]|]; try discriminate.
+    destruct (match s with "FeatureCollection" => _ | _ => _ end) as [[x y]|] eqn:E; try discriminate.
+    intros H. inversion H; subst. clear H.
+    revert E. repeat (match goal with |- context [match ?x with _ => _ end] => destruct x; try discriminate end).
+    all: intros E; inversion E; reflexivity.
+Qed.
+
+(* the pinned code (properties popped in place) is NOT pure: the second import loses dt *)
+Lemma import_pure_refuted_without_copy :
+  exists doc s doc' s2 doc2,
+    from_geojson_gen 720 false KPoint doc = Ok (s, doc') /\ doc' <> doc /\
+    from_geojson_gen 720 false KPoint doc' = Ok (s2, doc2) /\ sdt s = Some (5, 5) /\ sdt s2 = None.
+Proof.
+  exists (JObj [("type", JStr "Feature");
+                ("geometry", JObj [("type", JStr "Point"); ("coordinates", JArr [JFloat 4; JFloat 8])]);
+                ("properties", JObj [("datetime_start", JTime 5); ("a", JInt 1)])]).
+  do 4 eexists. vm_compute. repeat split; try reflexivity. discriminate.
+Qed.
+
+(* D14: a coordinate with z = 0 does not survive *)
+Lemma z_zero_roundtrip_refuted :
+  exists orc s s' d, kind_of (sgeom s) = Some KPoint /\
+    from_geojson 720 KPoint (to_geojson orc s None None []) = Ok (s', d) /\ shape_eqb s' s = false.
+Proof.
+  exists (mkoracle (fun _ _ => []) (fun _ _ => [])), (mkshape (GPoint (mkc 4 8 (Some 0))) None []).
+  do 2 eexists. vm_compute. repeat split.
+Qed.
+
+(* ---------- shape of the export ---------- *)
+
+Lemma export_feature : forall orc s ups k kw, kw_ok kw ->
+  exists doc, to_geojson orc s ups k kw = JObj doc /\
+    jget "type" doc = Some (JStr "Feature") /\
+    jget "geometry" doc = Some (geometry orc k (sgeom s)) /\
+    jget "properties" doc = Some (JObj (exported_props s ups)) /\
+    (forall key v, jget key kw = Some v -> NoDup (map fst kw) -> jget key doc = Some v).
+Proof.
+  intros orc s ups k kw (K1 & K2 & K3 & K4). eexists. split; [reflexivity|].
+  rewrite !jget_dmerge_fresh by assumption. repeat split.
+  intros key v H N. rewrite jget_dmerge by exact N. rewrite H. reflexivity.
+Qed.
+
+Lemma export_geometry_type : forall orc k g, exists C,
+  geometry orc k g = JObj [("type", JStr (geom_type g)); ("coordinates", C)].
+Proof. intros. eexists. reflexivity. Qed.
+
+Lemma features_from_nth : forall orc l ups k i0 (n : nat),
+  nth_error (features_from orc i0 l ups k) n =
+  option_map (fun s => to_geojson orc s ups k [("id", JInt (i0 + Z.of_nat n))]) (nth_error l n).
+Proof.
+  intros orc. induction l as [|s l IH]; intros ups k i0 n.
+  - destruct n; reflexivity.
+  - destruct n as [|n]; cbn [features_from nth_error option_map].
+    + rewrite Z.add_0_r. reflexivity.
+    + rewrite IH. replace (i0 + 1 + Z.of_nat n) with (i0 + Z.of_nat (S n)) by lia. reflexivity.
+Qed.
+
+(* the feature at position n of an exported collection is the n-th shape's Feature with id = n *)
+Lemma export_collection : forall orc l ups k, exists fs,
+  fc_to_geojson orc l ups k = JObj [("type", JStr "FeatureCollection"); ("features", JArr fs)] /\
+  length fs = length l /\
+  forall n s, nth_error l n = Some s ->
+    nth_error fs n = Some (to_geojson orc s ups k [("id", JInt (Z.of_nat n))]) /\
+    exists doc, to_geojson orc s ups k [("id", JInt (Z.of_nat n))] = JObj doc /\
+                jget "id" doc = Some (JInt (Z.of_nat n)) /\ jget "type" doc = Some (JStr "Feature").
+Proof.
+  intros orc l ups k. eexists. split; [reflexivity|]. split.
+  - generalize 0. induction l as [|s l IH]; intros i; cbn; [reflexivity|]. f_equal. apply IH.
+  - intros n s H. rewrite features_from_nth, H. cbn [option_map Z.add]. split; [reflexivity|].
+    eexists. split; [reflexivity|]. split; reflexivity.
+Qed.
+
+(* every exported value is JSON (no datetime objects) when the caller's additions are *)
+Lemma jring_pure : forall r, json_pure (jring r) = true.
+Proof.
+  intros r. unfold jring. cbn. rewrite forallb_forall. intros x Hx.
+  apply in_map_iff in Hx as (c & <- & _). unfold position. destruct (truthy_z (cz c)); reflexivity.
+Qed.
+
+Lemma jrings_pure : forall rs, forallb json_pure (map jring rs) = true.
+Proof.
+  intros rs. rewrite forallb_forall. intros x Hx. apply in_map_iff in Hx as (r & <- & _). apply jring_pure.
+Qed.
+
+Lemma geometry_pure : forall orc k g, json_pure (geometry orc k g) = true.
+Proof.
+  intros orc k g. unfold geometry. cbn [json_pure forallb snd]. rewrite andb_true_r. cbn [json_pure andb].
+  destruct g; try apply jring_pure; try (cbn [json_pure]; apply jrings_pure).
+  - unfold position. destruct (truthy_z (cz c)); reflexivity.
+  - cbn [json_pure]. rewrite forallb_forall. intros x Hx. apply in_map_iff in Hx as (p & <- & _).
+    cbn [json_pure]. apply jrings_pure.
+Qed.
+
+Lemma dset_pure : forall k v d, json_pure v = true -> dict_pure d = true -> dict_pure (dset k v d) = true.
+Proof.
+  intros k v. induction d as [|[h x] d IH]; intros Hv Hd; cbn in *.
+  - rewrite Hv. reflexivity.
+  - apply andb_true_iff in Hd as [Hx Hd]. destruct (String.eqb k h); cbn; rewrite ?Hv, ?Hx, ?Hd; cbn; auto.
+Qed.
+
+Lemma dmerge_pure : forall u d, dict_pure u = true -> dict_pure d = true -> dict_pure (dmerge d u) = true.
+Proof.
+  unfold dmerge. induction u as [|[k v] u IH]; intros d Hu Hd; cbn in *; [exact Hd|].
+  apply andb_true_iff in Hu as [Hv Hu]. apply IH; [exact Hu|]. apply dset_pure; assumption.
+Qed.
+
+Lemma export_serialisable : forall orc s ups k kw,
+  dict_pure (ups_dict ups) = true -> dict_pure kw = true ->
+  json_pure (to_geojson orc s ups k kw) = true.
+Proof.
+  intros orc s ups k kw Hu Hk. unfold to_geojson. cbn [json_pure].
+  change (forallb (fun kv => json_pure (snd kv)) ?d) with (dict_pure d).
+  apply dmerge_pure; [exact Hk|]. cbn [dict_pure forallb snd json_pure].
+  rewrite geometry_pure. cbn [andb]. rewrite andb_true_r.
+  change (forallb (fun kv => json_pure (snd kv)) ?d) with (dict_pure d).
+  destruct ups as [u|]; cbn [ups_dict] in Hu; apply dmerge_pure; try exact Hu; try reflexivity;
+    apply sanitize_dict_pure.
 Qed.
